@@ -18,6 +18,8 @@ NIGHTLY = os.environ.get('VERIF_NIGHTLY', 'nightly')
 CRATES = {
     'core': {'pkg': 'cedar-policy-core', 'dir': 'cedar-policy-core', 'features': 'partial-eval,tpe'},
     'symcc': {'pkg': 'cedar-policy-symcc', 'dir': 'cedar-policy-symcc', 'features': ''},
+    # cedar-policy-core with the (deprecated, feature-gated) entity-manifest analysis: C17 only, so that the dump of the other properties is unaffected
+    'coreem': {'pkg': 'cedar-policy-core', 'dir': 'cedar-policy-core', 'features': 'partial-eval,tpe,entity-manifest'},
     # the public API crate: FFI / protobuf / permission-query wrappers (its dump contains only its own bodies; calls into cedar-policy-core are stubs)
     'api': {'pkg': 'cedar-policy', 'dir': 'cedar-policy', 'features': 'partial-eval,tpe,protobufs', 'extra_src': ['cedar-policy-core/src']},
     # the command-line front end (library part): exit status and printed decision of `cedar authorize` / `validate` (its own bodies only)
